@@ -100,10 +100,10 @@ def run(M, rec, tier, seed, k, n):
                 rec.sample({"history": [s[2] for s in seq], "reads": "all lookups after every call"})
     rec.count("exhaustive_histories", rec.counters.get("histories", 0))
     # random, longer, with clashing names / shared objects and random read subsets
-    for r in range(300 if tier == "quick" else 1500):
+    for r in range(300 if tier == "quick" else 6000):
         Uc = Universe(M, clash=(r % 3 == 0))
         opsc = alphabet(Uc)
-        seq = [rng.choice(opsc) for _ in range(rng.randint(3, 12))]
+        seq = [rng.choice(opsc) for _ in range(rng.randint(3, 12 if tier == "quick" else 20))]
         run_history(M, rec, Uc, opsc, seq, rng, read_all=(r % 2 == 0))
         rec.count("random_histories")
         if r == 1:
